@@ -36,6 +36,7 @@ A, Bv = [1, 2, 3], [10, 20]
 REGIONS = [([1], [10]), ([1, 2], [10, 20]), ([2, 3], [20]), ([3], [10, 20]),
            ([2], [10]), ([1, 3], [10]), ([1, 2, 3], [10, 20]), ([3], [20]),
            ([1], [20])]
+ELLB = [[20], [10, 20]]
 CASESETS = [[(1, 10), (2, 20)], [(1, 20), (3, 10)], [(2, 10)], [(3, 20), (1, 10)]]
 
 
@@ -86,6 +87,16 @@ def alphabet(tier, expanded, extent_a):
                 ev.append(["save_merge", r, (r + 1) % 2, pol])
         if extent_a:  # (nothing to expand in an empty harvester)
             ev.append(["expand"])
+            # `...` = every value of that coordinate harvested so far; the
+            # caller re-uses one and the same combos dict every time
+            for k in range(len(ELLB)):
+                ev.append(["hell", k, 0, None])
+                ev.append(["hell", k, 1, True])
+            # (the same dict before and after the dataset grew along `a`)
+            for r in (2, 3):
+                ev.append(["seq", [["hell", 0, 0, None],
+                                   ["hc", r, 0, None, True, None],
+                                   ["hell", 0, 0, None]]])
     for x in sorted(extent_a)[:2 if tier == "quick" else 3]:
         ev.append(["drop", x])
     ev.append(["new_session"])
@@ -139,6 +150,8 @@ class World:
         self.model = Model()
         self.h = self.new_harvester()
         self.h2 = self.new_harvester()
+        self.ell = [{"a": ..., "b": list(ELLB[0])},
+                    {"b": list(ELLB[1]), "a": ...}]
         self.mem2 = None  # reference model of the second harvester's memory
         self.last = "h"
 
@@ -165,6 +178,10 @@ class World:
         m = self.model
         kind = ev[0]
         vio = []
+        if kind == "seq":
+            for sub in ev[1]:
+                vio += self.apply(sub)
+            return vio
         self.last = "h2" if kind == "hc2" else "h"
         if kind == "hc2":
             _, r, ver, pol, c = ev
@@ -197,8 +214,14 @@ class World:
             if not want_raise and raised is None:
                 m.disk = dict(merged)
             return vio
-        if kind in ("hc", "hcases", "add_ds"):
-            if kind == "hc":
+        if kind in ("hc", "hcases", "add_ds", "hell"):
+            if kind == "hell":
+                _, k, ver, pol = ev
+                view = m.mem if m.mem is not None else (m.disk or {})
+                ra = sorted({dict(c_[1])["a"] for c_ in view})
+                rb = ELLB[k]
+                pts, sync, cc = list(itertools.product(ra, rb)), True, None
+            elif kind == "hc":
                 _, r, ver, pol, sync, c = ev
                 ra, rb = REGIONS[r]
                 pts = list(itertools.product(ra, rb))
@@ -228,6 +251,9 @@ class World:
                     if cc is not None:
                         combos["c"] = [cc]
                     self.h.harvest_combos(combos, sync=sync, overwrite=pol,
+                                          verbosity=0)
+                elif kind == "hell":
+                    self.h.harvest_combos(self.ell[k], overwrite=pol,
                                           verbosity=0)
                 elif kind == "hcases":
                     self.h.harvest_cases(pts, fn_args=["a", "b"], sync=True,
